@@ -14,7 +14,14 @@ use tree_sitter_graph::functions::Functions;
 use tree_sitter_graph::graph::{Graph, Value};
 use tree_sitter_graph::{CancellationError, CancellationFlag, ExecutionConfig, ExecutionError, Identifier, ParseError, Variables};
 
-pub const POLL_CAP: u64 = 200_000;
+/// Poll bound when no reference run is available (C05, C19): far above what any generated input
+/// needs, so a breach means the run no longer advances.
+pub const POLL_CAP: u64 = 2_000_000;
+
+/// Poll bound relative to a finished reference run: 64 polls per reference step, at least 100 000.
+pub fn poll_cap_for(model_steps: u64) -> u64 {
+    (64 * model_steps).max(100_000)
+}
 
 pub struct CountingFlag {
     pub polls: Cell<u64>,
@@ -28,6 +35,9 @@ pub struct CountingFlag {
 impl CountingFlag {
     pub fn new(fail_from: Option<u64>) -> Self {
         CountingFlag { polls: Cell::new(0), fail_from, cap: POLL_CAP, capped: Cell::new(false), sites: Default::default() }
+    }
+    pub fn with_cap(cap: u64) -> Self {
+        CountingFlag { polls: Cell::new(0), fail_from: None, cap, capped: Cell::new(false), sites: Default::default() }
     }
 }
 
@@ -132,8 +142,13 @@ pub enum LibRun {
 
 /// Execute on a fresh graph and observe the result.
 pub fn run<'t>(file: &File, tree: &'t Tree, index: &TreeIndex<'t>, source: &'t str, globals: &BTreeMap<String, CVal>, opts: &ExecOpts) -> (LibRun, u64) {
+    run_capped(file, tree, index, source, globals, opts, POLL_CAP)
+}
+
+/// Execute on a fresh graph under the given poll bound and observe the result.
+pub fn run_capped<'t>(file: &File, tree: &'t Tree, index: &TreeIndex<'t>, source: &'t str, globals: &BTreeMap<String, CVal>, opts: &ExecOpts, cap: u64) -> (LibRun, u64) {
     let mut graph = Graph::new();
-    let flag = CountingFlag::new(None);
+    let flag = CountingFlag::with_cap(cap);
     let out = execute_into(file, &mut graph, tree, index, source, globals, opts, &flag);
     let polls = flag.polls.get();
     (
